@@ -53,6 +53,8 @@ void ref_snowv_aead_dec(const uint8_t key[32], const uint8_t iv[16], const uint8
                         size_t aad_len, const uint8_t *ct, uint8_t *pt, size_t len,
                         uint8_t tag[16]);
 
+void ref_snowv_aead_hkey(const uint8_t key[32], const uint8_t iv[16], uint8_t h[16], uint8_t endpad[16]);
+
 /* 3GPP IV generators, as the specifications define them */
 void ref_zuc_eea3_iv_gen(uint32_t count, uint8_t bearer, uint8_t dir, uint8_t iv[16]);
 void ref_zuc_eia3_iv_gen(uint32_t count, uint8_t bearer, uint8_t dir, uint8_t iv[16]);
